@@ -464,9 +464,10 @@ def rule_M4(ctx) -> None:
             for p in paths:
                 if not p.valuation.get(FIELD_NAME, False):
                     continue  # unknown-number branch
+                # on a mismatching occurrence *any* store is wrong - also the "materialise the default" setattr, which
+                # switches a oneof to the member whose number was hit
                 stores = [e for e in p.events if e.depth == 0 and (
-                    (e.kind == "call" and dotted(e.data[1]) in ("setattr", "$current.append", "$default.append", "$current.extend") and
-                     not (dotted(e.data[1]) == "setattr" and len(e.data[2]) == 3 and e.data[2][2] in (N("$default"), N("$current"))))
+                    (e.kind == "call" and dotted(e.data[1]) in ("setattr", "$current.append", "$default.append", "$current.extend"))
                     or (e.kind == "store" and e.data[0][0] == "sub" and e.data[0][1] in (N("$current"), N("$default"))))]
                 unknown = [e for e in p.events if e.kind == "aug" and e.data[0] == A(N("self"), "_unknown_fields")]
                 raised_early = p.outcome == "raise" and not stores
